@@ -111,6 +111,17 @@ def gen_model(rng):
         m["dup_terms"] = True
         m["lin_const"] = rng.choice([0, 0.25, 0.5])
     if rng.random() < 0.25:
+        # the absolute-value helper asked twice on one model: a second sum over some of the same error terms, with
+        # other weights
+        m["abs_twice"] = {str(i): rng.choice([0.5, 1, 2, 0.25]) for i in range(len(errs)) if rng.random() < 0.6}
+        for i, e in enumerate(errs):
+            # (distinct names: the uniquifying suffix of repeated names is not injective - `X`, `X`, `X_2` - and a
+            # second helper for a repeated name runs into that; a recorded observation, not this family's business)
+            e["name"] = f"E_{i}"
+    if rng.random() < 0.2:
+        # error terms whose bounds are not symmetric around zero
+        m["err_bounds"] = rng.choice([[-6, 1], [-5, 0.5], [-8, 2], [-1, 6]])
+    if rng.random() < 0.25:
         # a general integer variable ("copies in the background", 0..3) in one of the equations
         m["zint"] = {"err": rng.randrange(len(errs)), "ub": 3, "pen": rng.choice([0.05, 0.3, 0.7])}
     return m
@@ -338,7 +349,13 @@ def _intended(m, b):
             v = e["target"] - sum(c * b[int(j)] for j, c in e["coefs"].items())
             if z and i == z["err"]:
                 v -= zv
-            obj += e["w"] * abs(v)
+            eb = m.get("err_bounds")
+            if eb and not (eb[0] - 1e-9 <= v <= eb[1] + 1e-9):
+                obj = None
+                break
+            obj += e["w"] * abs(v) + m.get("abs_twice", {}).get(str(i), 0) * abs(v)
+        if obj is None:
+            continue
         if z:
             obj += z["pen"] * zv
         for j, pen in m["lin"].items():
@@ -346,7 +363,7 @@ def _intended(m, b):
         for p in m["prods"]:
             obj += p["w"] * int(all(b[j] for j in p["terms"]))
         best = obj if best is None else min(best, obj)
-    return best
+    return best  # (None: no value of the integer variable / error terms within their bounds)
 
 
 def _build(m):
@@ -358,7 +375,8 @@ def _build(m):
     E = []
     coeffs = {}
     for e in m["errs"]:
-        v = M.addVar(lb=-M.INF, ub=M.INF, name=e["name"])
+        eb = m.get("err_bounds") or [-M.INF, M.INF]
+        v = M.addVar(lb=eb[0], ub=eb[1], name=e["name"])
         E.append(v)
         coeffs[M.varName(v)] = e["w"]
         if m.get("dup_terms"):
@@ -389,6 +407,10 @@ def _build(m):
         M.addConstr(B[i] <= B[j], name=f"CORD_{i}_{j}")
     o_abs = M.abssum(E, coeffs=coeffs)
     obj = o_abs
+    if m.get("abs_twice"):
+        sub = [E[int(i)] for i in sorted(m["abs_twice"], key=int) if int(i) < len(E)]
+        if sub:
+            obj = obj + M.abssum(sub, coeffs={M.varName(E[int(i)]): w for i, w in m["abs_twice"].items() if int(i) < len(E)})
     if m.get("zint"):
         obj += zterm
     if m["lin"] and m.get("lin_const") is not None and m.get("dup_terms"):
@@ -483,7 +505,7 @@ def _run_enum(m, table, mode, viol, unsound, stats, sample=None):
         truabs = sum(e["w"] * abs(e["target"] - sum(c * b[int(j)] for j, c in e["coefs"].items()))
                      for e in m["errs"])
         stats["helper_checks"] += 1
-        if not m.get("zint") and abs(M.getValue(o_abs) - truabs) > TOL:
+        if not m.get("zint") and not m.get("err_bounds") and abs(M.getValue(o_abs) - truabs) > TOL:
             viol.append({"clause": "absolute-value helper differs from the sum of absolute values at an optimum",
                          "detail": dict(d, helper=M.getValue(o_abs), true=truabs)})
         for j, v in enumerate(B):
@@ -601,7 +623,8 @@ def _two_phase(m, viol, stats):
     existing one, with its own penalty; then it is enumerated again.  Judged against the final model."""
     import aldy.lpinterface as lpi
 
-    if m["prods"] or len(m["bins"]) < 2 or len(set(m["bins"])) != len(m["bins"]) or m.get("lin_const") or m.get("zint"):
+    if m["prods"] or len(m["bins"]) < 2 or len(set(m["bins"])) != len(m["bins"]) or m.get("lin_const") or m.get("zint") \
+            or m.get("abs_twice") or m.get("err_bounds"):
         return 0
     base = dict(m, bins=m["bins"][:-1])
     last = len(m["bins"]) - 1
